@@ -162,6 +162,10 @@ func loopPos(l *Loop) token.Pos {
 	var best token.Pos
 	for b := range l.Blocks {
 		for _, in := range b.Instrs {
+			switch in.(type) {
+			case *ssa.Phi, *ssa.DebugRef:
+				continue
+			}
 			if p := in.Pos(); p.IsValid() && (best == 0 || p < best) {
 				best = p
 			}
